@@ -65,6 +65,9 @@ type Options struct {
 	OnlyFunctions []string
 	// NoSpecialFloats keeps NaN / Inf literals out of number positions.
 	NoSpecialFloats bool
+	// ExcludeAggregations lists aggregation operators never to use (e.g. the ones whose
+	// result depends on the order of equal elements: topk, bottomk, limitk).
+	ExcludeAggregations []string
 
 	// Exotic switches on alternative spellings that exercise lexer, printer and prettifier:
 	// quoted UTF-8 metric and label names, keywords used as names, single-quoted and raw
@@ -203,6 +206,21 @@ func newG(t *rapid.T, o Options) *g {
 	gg.aggs = []string{"sum", "avg", "count", "min", "max", "group", "stddev", "stdvar", "topk", "bottomk", "count_values", "quantile"}
 	if !o.NoExperimental {
 		gg.aggs = append(gg.aggs, "limitk", "limit_ratio")
+	}
+	if len(o.ExcludeAggregations) > 0 {
+		exa := map[string]bool{}
+		for _, n := range o.ExcludeAggregations {
+			exa[n] = true
+		}
+		kept := make([]string, 0, len(gg.aggs))
+		for _, a := range gg.aggs {
+			if !exa[a] {
+				kept = append(kept, a)
+			}
+		}
+		if len(kept) > 0 {
+			gg.aggs = kept
+		}
 	}
 	return gg
 }
